@@ -147,7 +147,8 @@ fn valid_writers(thorough: bool) -> Vec<(Scenario, u32)> {
     for (name, input, units) in writer_inputs() {
         for kind in [Kind::W2, Kind::WL] {
             for workers in [1u32, 2, 3] {
-                let mut opsets: Vec<(String, Vec<WOp>)> = vec![("one".into(), vec![])];
+                // flush() before anything was written (and as the only call on an empty input), then the data
+                let mut opsets: Vec<(String, Vec<WOp>)> = vec![("one".into(), vec![]), ("flushfirst".into(), vec![WOp::Flush])];
                 if input.len() > 100 {
                     opsets.push(("split100".into(), vec![WOp::Write(100)]));
                     opsets.push(("flush100".into(), vec![WOp::Write(100), WOp::Flush]));
